@@ -96,7 +96,7 @@ func main() {
 		if tier == "" {
 			tier = "quick"
 		}
-		res, note := core.RunOne(chk, tier, rp.Case, work)
+		res, note := core.RunOne(chk, tier, rp.Case, work, rp.Case.Fam == "race")
 		fmt.Printf("case: %s\n", rp.Case.Key())
 		if res.V == core.Viol {
 			fmt.Printf("VIOLATION property=%s replay=%s\n  class=%s\n  %s\n", rp.Property, os.Args[2], res.Why, res.Msg)
